@@ -122,7 +122,7 @@ pub(crate) mod verif_logic {
         pub n: usize,
         pub data: MD<Value>,
     }
-    /// `pat` digit i (base 3): 0 = Err, 1 = Ok(New), 2 = Ok(Raw)
+    /// `pat` digit i (base 4): 0 = evaluation Err, 1 = Ok(New), 2 = Ok(Raw), 3 = invalid at parse time (from_value Err)
     pub(crate) fn setup(n: usize, pat: u32) -> Ops {
         let mut u = [0u64; 6];
         let mut i = 0;
@@ -150,10 +150,10 @@ pub(crate) mod verif_logic {
         let mut p = pat;
         let mut k = 0;
         while k < i {
-            p /= 3;
+            p /= 4;
             k += 1;
         }
-        (p % 3) as u8
+        (p % 4) as u8
     }
     pub(crate) fn register_all(ops: &Ops, pat: u32) {
         let mut i = 0;
@@ -167,6 +167,10 @@ pub(crate) mod verif_logic {
         let mut k = 0;
         let mut i = 0;
         while i < ops.n {
+            if class_of(pat, i) == 3 {
+                // reached, but it does not even parse: error, nothing evaluated
+                return (None, k);
+            }
             log[k] = i;
             k += 1;
             if class_of(pat, i) == 0 {
@@ -259,9 +263,13 @@ pub(crate) mod verif_logic {
         // want: Ok(Some(i)) value of operand i, Ok(None) null, Err
         let mut want: Result<Option<usize>, ()> = Ok(None);
         if n == 1 {
-            log[0] = 0;
-            k = 1;
-            want = if class_of(pat, 0) == 0 { Err(()) } else { Ok(Some(0)) };
+            if class_of(pat, 0) == 3 {
+                want = Err(());
+            } else {
+                log[0] = 0;
+                k = 1;
+                want = if class_of(pat, 0) == 0 { Err(()) } else { Ok(Some(0)) };
+            }
         } else if n >= 2 {
             let mut i = 0;
             loop {
@@ -270,6 +278,10 @@ pub(crate) mod verif_logic {
                     break;
                 }
                 // operand i: a condition, or the trailing else when it is the last of an odd-length list
+                if class_of(pat, i) == 3 {
+                    want = Err(());
+                    break;
+                }
                 log[k] = i;
                 k += 1;
                 if class_of(pat, i) == 0 {
@@ -281,6 +293,10 @@ pub(crate) mod verif_logic {
                     break;
                 }
                 if ops.u[i] != 0 {
+                    if class_of(pat, i + 1) == 3 {
+                        want = Err(());
+                        break;
+                    }
                     log[k] = i + 1;
                     k += 1;
                     want = if class_of(pat, i + 1) == 0 { Err(()) } else { Ok(Some(i + 1)) };
@@ -297,188 +313,206 @@ pub(crate) mod verif_logic {
         check_log(&ops, &log, k);
     }
 //@GENERATED-LAZY
-    //@ob name=C05.or.1.E harness=k_c05_or_1_E props=C05,C04 tier=quick strength=bounded bound="1 operands; outcome pattern E (E=error, N=new value, R=raw value); truthiness of every value symbolic" fns=op::logic::or stubs=4 timeout=300 cutdrop=1 group=medium
-    //@ desc="or over 1 operands: result (the deciding operand's value itself, or error/null) and the exact evaluation log (which operands, in which order, each at most once, against the outer data) equal the spec; the parser is applied to rule text only; the decision is by truthy"
+    //@ob name=C05.or.1.E harness=k_c05_or_1_E props=C05,C04 tier=quick strength=bounded bound="1 operands; outcome pattern E (E=evaluation error, N=new value, R=raw value, P=does not parse); truthiness of every value symbolic" fns=op::logic::or stubs=4 timeout=300 cutdrop=1 group=medium
+    //@ desc="or over 1 operands: result (the deciding operand's value itself, or error/null) and the exact evaluation log (which operands, in which order, each at most once, against the outer data) equal the spec; an operand that is not needed has no effect even if it is invalid; the parser is applied to rule text only"
     lazy_harness!(k_c05_or_1_E, 1, 0, body_or);
-    //@ob name=C05.or.1.N harness=k_c05_or_1_N props=C05,C04 tier=quick strength=bounded bound="1 operands; outcome pattern N (E=error, N=new value, R=raw value); truthiness of every value symbolic" fns=op::logic::or stubs=4 timeout=300 cutdrop=1 group=medium
-    //@ desc="or over 1 operands: result (the deciding operand's value itself, or error/null) and the exact evaluation log (which operands, in which order, each at most once, against the outer data) equal the spec; the parser is applied to rule text only; the decision is by truthy"
+    //@ob name=C05.or.1.N harness=k_c05_or_1_N props=C05,C04 tier=quick strength=bounded bound="1 operands; outcome pattern N (E=evaluation error, N=new value, R=raw value, P=does not parse); truthiness of every value symbolic" fns=op::logic::or stubs=4 timeout=300 cutdrop=1 group=medium
+    //@ desc="or over 1 operands: result (the deciding operand's value itself, or error/null) and the exact evaluation log (which operands, in which order, each at most once, against the outer data) equal the spec; an operand that is not needed has no effect even if it is invalid; the parser is applied to rule text only"
     lazy_harness!(k_c05_or_1_N, 1, 1, body_or);
-    //@ob name=C05.or.2.NE harness=k_c05_or_2_NE props=C05,C04 tier=quick strength=bounded bound="2 operands; outcome pattern NE (E=error, N=new value, R=raw value); truthiness of every value symbolic" fns=op::logic::or stubs=4 timeout=300 cutdrop=1 group=medium
-    //@ desc="or over 2 operands: result (the deciding operand's value itself, or error/null) and the exact evaluation log (which operands, in which order, each at most once, against the outer data) equal the spec; the parser is applied to rule text only; the decision is by truthy"
+    //@ob name=C05.or.2.NE harness=k_c05_or_2_NE props=C05,C04 tier=quick strength=bounded bound="2 operands; outcome pattern NE (E=evaluation error, N=new value, R=raw value, P=does not parse); truthiness of every value symbolic" fns=op::logic::or stubs=4 timeout=300 cutdrop=1 group=medium
+    //@ desc="or over 2 operands: result (the deciding operand's value itself, or error/null) and the exact evaluation log (which operands, in which order, each at most once, against the outer data) equal the spec; an operand that is not needed has no effect even if it is invalid; the parser is applied to rule text only"
     lazy_harness!(k_c05_or_2_NE, 2, 1, body_or);
-    //@ob name=C05.or.2.ER harness=k_c05_or_2_ER props=C05,C04 tier=thorough strength=bounded bound="2 operands; outcome pattern ER (E=error, N=new value, R=raw value); truthiness of every value symbolic" fns=op::logic::or stubs=4 timeout=300 cutdrop=1 group=heavy
-    //@ desc="or over 2 operands: result (the deciding operand's value itself, or error/null) and the exact evaluation log (which operands, in which order, each at most once, against the outer data) equal the spec; the parser is applied to rule text only; the decision is by truthy"
-    lazy_harness!(k_c05_or_2_ER, 2, 6, body_or);
-    //@ob name=C05.or.2.NR harness=k_c05_or_2_NR props=C05,C04 tier=quick strength=bounded bound="2 operands; outcome pattern NR (E=error, N=new value, R=raw value); truthiness of every value symbolic" fns=op::logic::or stubs=4 timeout=300 cutdrop=1 group=medium
-    //@ desc="or over 2 operands: result (the deciding operand's value itself, or error/null) and the exact evaluation log (which operands, in which order, each at most once, against the outer data) equal the spec; the parser is applied to rule text only; the decision is by truthy"
-    lazy_harness!(k_c05_or_2_NR, 2, 7, body_or);
-    //@ob name=C05.or.3.NRE harness=k_c05_or_3_NRE props=C05,C04 tier=thorough strength=bounded bound="3 operands; outcome pattern NRE (E=error, N=new value, R=raw value); truthiness of every value symbolic" fns=op::logic::or stubs=4 timeout=300 cutdrop=1 group=medium
-    //@ desc="or over 3 operands: result (the deciding operand's value itself, or error/null) and the exact evaluation log (which operands, in which order, each at most once, against the outer data) equal the spec; the parser is applied to rule text only; the decision is by truthy"
-    lazy_harness!(k_c05_or_3_NRE, 3, 7, body_or);
-    //@ob name=C05.or.3.NEN harness=k_c05_or_3_NEN props=C05,C04 tier=thorough strength=bounded bound="3 operands; outcome pattern NEN (E=error, N=new value, R=raw value); truthiness of every value symbolic" fns=op::logic::or stubs=4 timeout=300 cutdrop=1 group=heavy
-    //@ desc="or over 3 operands: result (the deciding operand's value itself, or error/null) and the exact evaluation log (which operands, in which order, each at most once, against the outer data) equal the spec; the parser is applied to rule text only; the decision is by truthy"
-    lazy_harness!(k_c05_or_3_NEN, 3, 10, body_or);
-    //@ob name=C05.or.3.ERN harness=k_c05_or_3_ERN props=C05,C04 tier=thorough strength=bounded bound="3 operands; outcome pattern ERN (E=error, N=new value, R=raw value); truthiness of every value symbolic" fns=op::logic::or stubs=4 timeout=300 cutdrop=1 group=heavy
-    //@ desc="or over 3 operands: result (the deciding operand's value itself, or error/null) and the exact evaluation log (which operands, in which order, each at most once, against the outer data) equal the spec; the parser is applied to rule text only; the decision is by truthy"
-    lazy_harness!(k_c05_or_3_ERN, 3, 15, body_or);
-    //@ob name=C05.or.3.NRN harness=k_c05_or_3_NRN props=C05,C04 tier=quick strength=bounded bound="3 operands; outcome pattern NRN (E=error, N=new value, R=raw value); truthiness of every value symbolic" fns=op::logic::or stubs=4 timeout=300 cutdrop=1 group=medium
-    //@ desc="or over 3 operands: result (the deciding operand's value itself, or error/null) and the exact evaluation log (which operands, in which order, each at most once, against the outer data) equal the spec; the parser is applied to rule text only; the decision is by truthy"
-    lazy_harness!(k_c05_or_3_NRN, 3, 16, body_or);
-    //@ob name=C05.or.4.NRNE harness=k_c05_or_4_NRNE props=C05,C04 tier=thorough strength=bounded bound="4 operands; outcome pattern NRNE (E=error, N=new value, R=raw value); truthiness of every value symbolic" fns=op::logic::or stubs=4 timeout=300 cutdrop=1 group=medium
-    //@ desc="or over 4 operands: result (the deciding operand's value itself, or error/null) and the exact evaluation log (which operands, in which order, each at most once, against the outer data) equal the spec; the parser is applied to rule text only; the decision is by truthy"
-    lazy_harness!(k_c05_or_4_NRNE, 4, 16, body_or);
-    //@ob name=C05.or.4.NRER harness=k_c05_or_4_NRER props=C05,C04 tier=thorough strength=bounded bound="4 operands; outcome pattern NRER (E=error, N=new value, R=raw value); truthiness of every value symbolic" fns=op::logic::or stubs=4 timeout=300 cutdrop=1 group=heavy
-    //@ desc="or over 4 operands: result (the deciding operand's value itself, or error/null) and the exact evaluation log (which operands, in which order, each at most once, against the outer data) equal the spec; the parser is applied to rule text only; the decision is by truthy"
-    lazy_harness!(k_c05_or_4_NRER, 4, 61, body_or);
-    //@ob name=C05.or.4.NENR harness=k_c05_or_4_NENR props=C05,C04 tier=thorough strength=bounded bound="4 operands; outcome pattern NENR (E=error, N=new value, R=raw value); truthiness of every value symbolic" fns=op::logic::or stubs=4 timeout=300 cutdrop=1 group=heavy
-    //@ desc="or over 4 operands: result (the deciding operand's value itself, or error/null) and the exact evaluation log (which operands, in which order, each at most once, against the outer data) equal the spec; the parser is applied to rule text only; the decision is by truthy"
-    lazy_harness!(k_c05_or_4_NENR, 4, 64, body_or);
-    //@ob name=C05.or.4.ERNR harness=k_c05_or_4_ERNR props=C05,C04 tier=thorough strength=bounded bound="4 operands; outcome pattern ERNR (E=error, N=new value, R=raw value); truthiness of every value symbolic" fns=op::logic::or stubs=4 timeout=300 cutdrop=1 group=heavy
-    //@ desc="or over 4 operands: result (the deciding operand's value itself, or error/null) and the exact evaluation log (which operands, in which order, each at most once, against the outer data) equal the spec; the parser is applied to rule text only; the decision is by truthy"
-    lazy_harness!(k_c05_or_4_ERNR, 4, 69, body_or);
-    //@ob name=C05.or.4.NRNR harness=k_c05_or_4_NRNR props=C05,C04 tier=thorough strength=bounded bound="4 operands; outcome pattern NRNR (E=error, N=new value, R=raw value); truthiness of every value symbolic" fns=op::logic::or stubs=4 timeout=300 cutdrop=1 group=medium
-    //@ desc="or over 4 operands: result (the deciding operand's value itself, or error/null) and the exact evaluation log (which operands, in which order, each at most once, against the outer data) equal the spec; the parser is applied to rule text only; the decision is by truthy"
-    lazy_harness!(k_c05_or_4_NRNR, 4, 70, body_or);
-    //@ob name=C05.or.5.NRNRE harness=k_c05_or_5_NRNRE props=C05,C04 tier=thorough strength=bounded bound="5 operands; outcome pattern NRNRE (E=error, N=new value, R=raw value); truthiness of every value symbolic" fns=op::logic::or stubs=4 timeout=300 cutdrop=1 group=medium
-    //@ desc="or over 5 operands: result (the deciding operand's value itself, or error/null) and the exact evaluation log (which operands, in which order, each at most once, against the outer data) equal the spec; the parser is applied to rule text only; the decision is by truthy"
-    lazy_harness!(k_c05_or_5_NRNRE, 5, 70, body_or);
-    //@ob name=C05.or.5.NRNEN harness=k_c05_or_5_NRNEN props=C05,C04 tier=thorough strength=bounded bound="5 operands; outcome pattern NRNEN (E=error, N=new value, R=raw value); truthiness of every value symbolic" fns=op::logic::or stubs=4 timeout=300 cutdrop=1 group=heavy
-    //@ desc="or over 5 operands: result (the deciding operand's value itself, or error/null) and the exact evaluation log (which operands, in which order, each at most once, against the outer data) equal the spec; the parser is applied to rule text only; the decision is by truthy"
-    lazy_harness!(k_c05_or_5_NRNEN, 5, 97, body_or);
-    //@ob name=C05.or.5.NRERN harness=k_c05_or_5_NRERN props=C05,C04 tier=thorough strength=bounded bound="5 operands; outcome pattern NRERN (E=error, N=new value, R=raw value); truthiness of every value symbolic" fns=op::logic::or stubs=4 timeout=300 cutdrop=1 group=heavy
-    //@ desc="or over 5 operands: result (the deciding operand's value itself, or error/null) and the exact evaluation log (which operands, in which order, each at most once, against the outer data) equal the spec; the parser is applied to rule text only; the decision is by truthy"
-    lazy_harness!(k_c05_or_5_NRERN, 5, 142, body_or);
-    //@ob name=C05.or.5.NENRN harness=k_c05_or_5_NENRN props=C05,C04 tier=thorough strength=bounded bound="5 operands; outcome pattern NENRN (E=error, N=new value, R=raw value); truthiness of every value symbolic" fns=op::logic::or stubs=4 timeout=300 cutdrop=1 group=heavy
-    //@ desc="or over 5 operands: result (the deciding operand's value itself, or error/null) and the exact evaluation log (which operands, in which order, each at most once, against the outer data) equal the spec; the parser is applied to rule text only; the decision is by truthy"
-    lazy_harness!(k_c05_or_5_NENRN, 5, 145, body_or);
-    //@ob name=C05.or.5.ERNRN harness=k_c05_or_5_ERNRN props=C05,C04 tier=thorough strength=bounded bound="5 operands; outcome pattern ERNRN (E=error, N=new value, R=raw value); truthiness of every value symbolic" fns=op::logic::or stubs=4 timeout=300 cutdrop=1 group=heavy
-    //@ desc="or over 5 operands: result (the deciding operand's value itself, or error/null) and the exact evaluation log (which operands, in which order, each at most once, against the outer data) equal the spec; the parser is applied to rule text only; the decision is by truthy"
-    lazy_harness!(k_c05_or_5_ERNRN, 5, 150, body_or);
-    //@ob name=C05.or.5.NRNRN harness=k_c05_or_5_NRNRN props=C05,C04 tier=thorough strength=bounded bound="5 operands; outcome pattern NRNRN (E=error, N=new value, R=raw value); truthiness of every value symbolic" fns=op::logic::or stubs=4 timeout=300 cutdrop=1 group=medium
-    //@ desc="or over 5 operands: result (the deciding operand's value itself, or error/null) and the exact evaluation log (which operands, in which order, each at most once, against the outer data) equal the spec; the parser is applied to rule text only; the decision is by truthy"
-    lazy_harness!(k_c05_or_5_NRNRN, 5, 151, body_or);
-    //@ob name=C05.and.1.E harness=k_c05_and_1_E props=C05,C04 tier=quick strength=bounded bound="1 operands; outcome pattern E (E=error, N=new value, R=raw value); truthiness of every value symbolic" fns=op::logic::and stubs=4 timeout=300 cutdrop=1 group=medium
-    //@ desc="and over 1 operands: result (the deciding operand's value itself, or error/null) and the exact evaluation log (which operands, in which order, each at most once, against the outer data) equal the spec; the parser is applied to rule text only; the decision is by truthy"
+    //@ob name=C05.or.2.ER harness=k_c05_or_2_ER props=C05,C04 tier=thorough strength=bounded bound="2 operands; outcome pattern ER (E=evaluation error, N=new value, R=raw value, P=does not parse); truthiness of every value symbolic" fns=op::logic::or stubs=4 timeout=300 cutdrop=1 group=heavy
+    //@ desc="or over 2 operands: result (the deciding operand's value itself, or error/null) and the exact evaluation log (which operands, in which order, each at most once, against the outer data) equal the spec; an operand that is not needed has no effect even if it is invalid; the parser is applied to rule text only"
+    lazy_harness!(k_c05_or_2_ER, 2, 8, body_or);
+    //@ob name=C05.or.2.NR harness=k_c05_or_2_NR props=C05,C04 tier=quick strength=bounded bound="2 operands; outcome pattern NR (E=evaluation error, N=new value, R=raw value, P=does not parse); truthiness of every value symbolic" fns=op::logic::or stubs=4 timeout=300 cutdrop=1 group=medium
+    //@ desc="or over 2 operands: result (the deciding operand's value itself, or error/null) and the exact evaluation log (which operands, in which order, each at most once, against the outer data) equal the spec; an operand that is not needed has no effect even if it is invalid; the parser is applied to rule text only"
+    lazy_harness!(k_c05_or_2_NR, 2, 9, body_or);
+    //@ob name=C05.or.2.NP harness=k_c05_or_2_NP props=C05,C04 tier=quick strength=bounded bound="2 operands; outcome pattern NP (E=evaluation error, N=new value, R=raw value, P=does not parse); truthiness of every value symbolic" fns=op::logic::or stubs=4 timeout=300 cutdrop=1 group=medium
+    //@ desc="or over 2 operands: result (the deciding operand's value itself, or error/null) and the exact evaluation log (which operands, in which order, each at most once, against the outer data) equal the spec; an operand that is not needed has no effect even if it is invalid; the parser is applied to rule text only"
+    lazy_harness!(k_c05_or_2_NP, 2, 13, body_or);
+    //@ob name=C05.or.3.NRE harness=k_c05_or_3_NRE props=C05,C04 tier=thorough strength=bounded bound="3 operands; outcome pattern NRE (E=evaluation error, N=new value, R=raw value, P=does not parse); truthiness of every value symbolic" fns=op::logic::or stubs=4 timeout=300 cutdrop=1 group=medium
+    //@ desc="or over 3 operands: result (the deciding operand's value itself, or error/null) and the exact evaluation log (which operands, in which order, each at most once, against the outer data) equal the spec; an operand that is not needed has no effect even if it is invalid; the parser is applied to rule text only"
+    lazy_harness!(k_c05_or_3_NRE, 3, 9, body_or);
+    //@ob name=C05.or.3.NEN harness=k_c05_or_3_NEN props=C05,C04 tier=thorough strength=bounded bound="3 operands; outcome pattern NEN (E=evaluation error, N=new value, R=raw value, P=does not parse); truthiness of every value symbolic" fns=op::logic::or stubs=4 timeout=300 cutdrop=1 group=heavy
+    //@ desc="or over 3 operands: result (the deciding operand's value itself, or error/null) and the exact evaluation log (which operands, in which order, each at most once, against the outer data) equal the spec; an operand that is not needed has no effect even if it is invalid; the parser is applied to rule text only"
+    lazy_harness!(k_c05_or_3_NEN, 3, 17, body_or);
+    //@ob name=C05.or.3.ERN harness=k_c05_or_3_ERN props=C05,C04 tier=thorough strength=bounded bound="3 operands; outcome pattern ERN (E=evaluation error, N=new value, R=raw value, P=does not parse); truthiness of every value symbolic" fns=op::logic::or stubs=4 timeout=300 cutdrop=1 group=heavy
+    //@ desc="or over 3 operands: result (the deciding operand's value itself, or error/null) and the exact evaluation log (which operands, in which order, each at most once, against the outer data) equal the spec; an operand that is not needed has no effect even if it is invalid; the parser is applied to rule text only"
+    lazy_harness!(k_c05_or_3_ERN, 3, 24, body_or);
+    //@ob name=C05.or.3.NRN harness=k_c05_or_3_NRN props=C05,C04 tier=quick strength=bounded bound="3 operands; outcome pattern NRN (E=evaluation error, N=new value, R=raw value, P=does not parse); truthiness of every value symbolic" fns=op::logic::or stubs=4 timeout=300 cutdrop=1 group=medium
+    //@ desc="or over 3 operands: result (the deciding operand's value itself, or error/null) and the exact evaluation log (which operands, in which order, each at most once, against the outer data) equal the spec; an operand that is not needed has no effect even if it is invalid; the parser is applied to rule text only"
+    lazy_harness!(k_c05_or_3_NRN, 3, 25, body_or);
+    //@ob name=C05.or.3.NNP harness=k_c05_or_3_NNP props=C05,C04 tier=quick strength=bounded bound="3 operands; outcome pattern NNP (E=evaluation error, N=new value, R=raw value, P=does not parse); truthiness of every value symbolic" fns=op::logic::or stubs=4 timeout=300 cutdrop=1 group=medium
+    //@ desc="or over 3 operands: result (the deciding operand's value itself, or error/null) and the exact evaluation log (which operands, in which order, each at most once, against the outer data) equal the spec; an operand that is not needed has no effect even if it is invalid; the parser is applied to rule text only"
+    lazy_harness!(k_c05_or_3_NNP, 3, 53, body_or);
+    //@ob name=C05.or.4.NRNE harness=k_c05_or_4_NRNE props=C05,C04 tier=thorough strength=bounded bound="4 operands; outcome pattern NRNE (E=evaluation error, N=new value, R=raw value, P=does not parse); truthiness of every value symbolic" fns=op::logic::or stubs=4 timeout=300 cutdrop=1 group=medium
+    //@ desc="or over 4 operands: result (the deciding operand's value itself, or error/null) and the exact evaluation log (which operands, in which order, each at most once, against the outer data) equal the spec; an operand that is not needed has no effect even if it is invalid; the parser is applied to rule text only"
+    lazy_harness!(k_c05_or_4_NRNE, 4, 25, body_or);
+    //@ob name=C05.or.4.NRER harness=k_c05_or_4_NRER props=C05,C04 tier=thorough strength=bounded bound="4 operands; outcome pattern NRER (E=evaluation error, N=new value, R=raw value, P=does not parse); truthiness of every value symbolic" fns=op::logic::or stubs=4 timeout=300 cutdrop=1 group=heavy
+    //@ desc="or over 4 operands: result (the deciding operand's value itself, or error/null) and the exact evaluation log (which operands, in which order, each at most once, against the outer data) equal the spec; an operand that is not needed has no effect even if it is invalid; the parser is applied to rule text only"
+    lazy_harness!(k_c05_or_4_NRER, 4, 137, body_or);
+    //@ob name=C05.or.4.NENR harness=k_c05_or_4_NENR props=C05,C04 tier=thorough strength=bounded bound="4 operands; outcome pattern NENR (E=evaluation error, N=new value, R=raw value, P=does not parse); truthiness of every value symbolic" fns=op::logic::or stubs=4 timeout=300 cutdrop=1 group=heavy
+    //@ desc="or over 4 operands: result (the deciding operand's value itself, or error/null) and the exact evaluation log (which operands, in which order, each at most once, against the outer data) equal the spec; an operand that is not needed has no effect even if it is invalid; the parser is applied to rule text only"
+    lazy_harness!(k_c05_or_4_NENR, 4, 145, body_or);
+    //@ob name=C05.or.4.ERNR harness=k_c05_or_4_ERNR props=C05,C04 tier=thorough strength=bounded bound="4 operands; outcome pattern ERNR (E=evaluation error, N=new value, R=raw value, P=does not parse); truthiness of every value symbolic" fns=op::logic::or stubs=4 timeout=300 cutdrop=1 group=heavy
+    //@ desc="or over 4 operands: result (the deciding operand's value itself, or error/null) and the exact evaluation log (which operands, in which order, each at most once, against the outer data) equal the spec; an operand that is not needed has no effect even if it is invalid; the parser is applied to rule text only"
+    lazy_harness!(k_c05_or_4_ERNR, 4, 152, body_or);
+    //@ob name=C05.or.4.NRNR harness=k_c05_or_4_NRNR props=C05,C04 tier=thorough strength=bounded bound="4 operands; outcome pattern NRNR (E=evaluation error, N=new value, R=raw value, P=does not parse); truthiness of every value symbolic" fns=op::logic::or stubs=4 timeout=300 cutdrop=1 group=medium
+    //@ desc="or over 4 operands: result (the deciding operand's value itself, or error/null) and the exact evaluation log (which operands, in which order, each at most once, against the outer data) equal the spec; an operand that is not needed has no effect even if it is invalid; the parser is applied to rule text only"
+    lazy_harness!(k_c05_or_4_NRNR, 4, 153, body_or);
+    //@ob name=C05.or.5.NRNRE harness=k_c05_or_5_NRNRE props=C05,C04 tier=thorough strength=bounded bound="5 operands; outcome pattern NRNRE (E=evaluation error, N=new value, R=raw value, P=does not parse); truthiness of every value symbolic" fns=op::logic::or stubs=4 timeout=300 cutdrop=1 group=medium
+    //@ desc="or over 5 operands: result (the deciding operand's value itself, or error/null) and the exact evaluation log (which operands, in which order, each at most once, against the outer data) equal the spec; an operand that is not needed has no effect even if it is invalid; the parser is applied to rule text only"
+    lazy_harness!(k_c05_or_5_NRNRE, 5, 153, body_or);
+    //@ob name=C05.or.5.NRNEN harness=k_c05_or_5_NRNEN props=C05,C04 tier=thorough strength=bounded bound="5 operands; outcome pattern NRNEN (E=evaluation error, N=new value, R=raw value, P=does not parse); truthiness of every value symbolic" fns=op::logic::or stubs=4 timeout=300 cutdrop=1 group=heavy
+    //@ desc="or over 5 operands: result (the deciding operand's value itself, or error/null) and the exact evaluation log (which operands, in which order, each at most once, against the outer data) equal the spec; an operand that is not needed has no effect even if it is invalid; the parser is applied to rule text only"
+    lazy_harness!(k_c05_or_5_NRNEN, 5, 281, body_or);
+    //@ob name=C05.or.5.NRERN harness=k_c05_or_5_NRERN props=C05,C04 tier=thorough strength=bounded bound="5 operands; outcome pattern NRERN (E=evaluation error, N=new value, R=raw value, P=does not parse); truthiness of every value symbolic" fns=op::logic::or stubs=4 timeout=300 cutdrop=1 group=heavy
+    //@ desc="or over 5 operands: result (the deciding operand's value itself, or error/null) and the exact evaluation log (which operands, in which order, each at most once, against the outer data) equal the spec; an operand that is not needed has no effect even if it is invalid; the parser is applied to rule text only"
+    lazy_harness!(k_c05_or_5_NRERN, 5, 393, body_or);
+    //@ob name=C05.or.5.NENRN harness=k_c05_or_5_NENRN props=C05,C04 tier=thorough strength=bounded bound="5 operands; outcome pattern NENRN (E=evaluation error, N=new value, R=raw value, P=does not parse); truthiness of every value symbolic" fns=op::logic::or stubs=4 timeout=300 cutdrop=1 group=heavy
+    //@ desc="or over 5 operands: result (the deciding operand's value itself, or error/null) and the exact evaluation log (which operands, in which order, each at most once, against the outer data) equal the spec; an operand that is not needed has no effect even if it is invalid; the parser is applied to rule text only"
+    lazy_harness!(k_c05_or_5_NENRN, 5, 401, body_or);
+    //@ob name=C05.or.5.ERNRN harness=k_c05_or_5_ERNRN props=C05,C04 tier=thorough strength=bounded bound="5 operands; outcome pattern ERNRN (E=evaluation error, N=new value, R=raw value, P=does not parse); truthiness of every value symbolic" fns=op::logic::or stubs=4 timeout=300 cutdrop=1 group=heavy
+    //@ desc="or over 5 operands: result (the deciding operand's value itself, or error/null) and the exact evaluation log (which operands, in which order, each at most once, against the outer data) equal the spec; an operand that is not needed has no effect even if it is invalid; the parser is applied to rule text only"
+    lazy_harness!(k_c05_or_5_ERNRN, 5, 408, body_or);
+    //@ob name=C05.or.5.NRNRN harness=k_c05_or_5_NRNRN props=C05,C04 tier=thorough strength=bounded bound="5 operands; outcome pattern NRNRN (E=evaluation error, N=new value, R=raw value, P=does not parse); truthiness of every value symbolic" fns=op::logic::or stubs=4 timeout=300 cutdrop=1 group=medium
+    //@ desc="or over 5 operands: result (the deciding operand's value itself, or error/null) and the exact evaluation log (which operands, in which order, each at most once, against the outer data) equal the spec; an operand that is not needed has no effect even if it is invalid; the parser is applied to rule text only"
+    lazy_harness!(k_c05_or_5_NRNRN, 5, 409, body_or);
+    //@ob name=C05.and.1.E harness=k_c05_and_1_E props=C05,C04 tier=quick strength=bounded bound="1 operands; outcome pattern E (E=evaluation error, N=new value, R=raw value, P=does not parse); truthiness of every value symbolic" fns=op::logic::and stubs=4 timeout=300 cutdrop=1 group=medium
+    //@ desc="and over 1 operands: result (the deciding operand's value itself, or error/null) and the exact evaluation log (which operands, in which order, each at most once, against the outer data) equal the spec; an operand that is not needed has no effect even if it is invalid; the parser is applied to rule text only"
     lazy_harness!(k_c05_and_1_E, 1, 0, body_and);
-    //@ob name=C05.and.1.N harness=k_c05_and_1_N props=C05,C04 tier=quick strength=bounded bound="1 operands; outcome pattern N (E=error, N=new value, R=raw value); truthiness of every value symbolic" fns=op::logic::and stubs=4 timeout=300 cutdrop=1 group=medium
-    //@ desc="and over 1 operands: result (the deciding operand's value itself, or error/null) and the exact evaluation log (which operands, in which order, each at most once, against the outer data) equal the spec; the parser is applied to rule text only; the decision is by truthy"
+    //@ob name=C05.and.1.N harness=k_c05_and_1_N props=C05,C04 tier=quick strength=bounded bound="1 operands; outcome pattern N (E=evaluation error, N=new value, R=raw value, P=does not parse); truthiness of every value symbolic" fns=op::logic::and stubs=4 timeout=300 cutdrop=1 group=medium
+    //@ desc="and over 1 operands: result (the deciding operand's value itself, or error/null) and the exact evaluation log (which operands, in which order, each at most once, against the outer data) equal the spec; an operand that is not needed has no effect even if it is invalid; the parser is applied to rule text only"
     lazy_harness!(k_c05_and_1_N, 1, 1, body_and);
-    //@ob name=C05.and.2.NE harness=k_c05_and_2_NE props=C05,C04 tier=quick strength=bounded bound="2 operands; outcome pattern NE (E=error, N=new value, R=raw value); truthiness of every value symbolic" fns=op::logic::and stubs=4 timeout=300 cutdrop=1 group=medium
-    //@ desc="and over 2 operands: result (the deciding operand's value itself, or error/null) and the exact evaluation log (which operands, in which order, each at most once, against the outer data) equal the spec; the parser is applied to rule text only; the decision is by truthy"
+    //@ob name=C05.and.2.NE harness=k_c05_and_2_NE props=C05,C04 tier=quick strength=bounded bound="2 operands; outcome pattern NE (E=evaluation error, N=new value, R=raw value, P=does not parse); truthiness of every value symbolic" fns=op::logic::and stubs=4 timeout=300 cutdrop=1 group=medium
+    //@ desc="and over 2 operands: result (the deciding operand's value itself, or error/null) and the exact evaluation log (which operands, in which order, each at most once, against the outer data) equal the spec; an operand that is not needed has no effect even if it is invalid; the parser is applied to rule text only"
     lazy_harness!(k_c05_and_2_NE, 2, 1, body_and);
-    //@ob name=C05.and.2.ER harness=k_c05_and_2_ER props=C05,C04 tier=thorough strength=bounded bound="2 operands; outcome pattern ER (E=error, N=new value, R=raw value); truthiness of every value symbolic" fns=op::logic::and stubs=4 timeout=300 cutdrop=1 group=heavy
-    //@ desc="and over 2 operands: result (the deciding operand's value itself, or error/null) and the exact evaluation log (which operands, in which order, each at most once, against the outer data) equal the spec; the parser is applied to rule text only; the decision is by truthy"
-    lazy_harness!(k_c05_and_2_ER, 2, 6, body_and);
-    //@ob name=C05.and.2.NR harness=k_c05_and_2_NR props=C05,C04 tier=quick strength=bounded bound="2 operands; outcome pattern NR (E=error, N=new value, R=raw value); truthiness of every value symbolic" fns=op::logic::and stubs=4 timeout=300 cutdrop=1 group=medium
-    //@ desc="and over 2 operands: result (the deciding operand's value itself, or error/null) and the exact evaluation log (which operands, in which order, each at most once, against the outer data) equal the spec; the parser is applied to rule text only; the decision is by truthy"
-    lazy_harness!(k_c05_and_2_NR, 2, 7, body_and);
-    //@ob name=C05.and.3.NRE harness=k_c05_and_3_NRE props=C05,C04 tier=thorough strength=bounded bound="3 operands; outcome pattern NRE (E=error, N=new value, R=raw value); truthiness of every value symbolic" fns=op::logic::and stubs=4 timeout=300 cutdrop=1 group=medium
-    //@ desc="and over 3 operands: result (the deciding operand's value itself, or error/null) and the exact evaluation log (which operands, in which order, each at most once, against the outer data) equal the spec; the parser is applied to rule text only; the decision is by truthy"
-    lazy_harness!(k_c05_and_3_NRE, 3, 7, body_and);
-    //@ob name=C05.and.3.NEN harness=k_c05_and_3_NEN props=C05,C04 tier=thorough strength=bounded bound="3 operands; outcome pattern NEN (E=error, N=new value, R=raw value); truthiness of every value symbolic" fns=op::logic::and stubs=4 timeout=300 cutdrop=1 group=heavy
-    //@ desc="and over 3 operands: result (the deciding operand's value itself, or error/null) and the exact evaluation log (which operands, in which order, each at most once, against the outer data) equal the spec; the parser is applied to rule text only; the decision is by truthy"
-    lazy_harness!(k_c05_and_3_NEN, 3, 10, body_and);
-    //@ob name=C05.and.3.ERN harness=k_c05_and_3_ERN props=C05,C04 tier=thorough strength=bounded bound="3 operands; outcome pattern ERN (E=error, N=new value, R=raw value); truthiness of every value symbolic" fns=op::logic::and stubs=4 timeout=300 cutdrop=1 group=heavy
-    //@ desc="and over 3 operands: result (the deciding operand's value itself, or error/null) and the exact evaluation log (which operands, in which order, each at most once, against the outer data) equal the spec; the parser is applied to rule text only; the decision is by truthy"
-    lazy_harness!(k_c05_and_3_ERN, 3, 15, body_and);
-    //@ob name=C05.and.3.NRN harness=k_c05_and_3_NRN props=C05,C04 tier=quick strength=bounded bound="3 operands; outcome pattern NRN (E=error, N=new value, R=raw value); truthiness of every value symbolic" fns=op::logic::and stubs=4 timeout=300 cutdrop=1 group=medium
-    //@ desc="and over 3 operands: result (the deciding operand's value itself, or error/null) and the exact evaluation log (which operands, in which order, each at most once, against the outer data) equal the spec; the parser is applied to rule text only; the decision is by truthy"
-    lazy_harness!(k_c05_and_3_NRN, 3, 16, body_and);
-    //@ob name=C05.and.4.NRNE harness=k_c05_and_4_NRNE props=C05,C04 tier=thorough strength=bounded bound="4 operands; outcome pattern NRNE (E=error, N=new value, R=raw value); truthiness of every value symbolic" fns=op::logic::and stubs=4 timeout=300 cutdrop=1 group=medium
-    //@ desc="and over 4 operands: result (the deciding operand's value itself, or error/null) and the exact evaluation log (which operands, in which order, each at most once, against the outer data) equal the spec; the parser is applied to rule text only; the decision is by truthy"
-    lazy_harness!(k_c05_and_4_NRNE, 4, 16, body_and);
-    //@ob name=C05.and.4.NRER harness=k_c05_and_4_NRER props=C05,C04 tier=thorough strength=bounded bound="4 operands; outcome pattern NRER (E=error, N=new value, R=raw value); truthiness of every value symbolic" fns=op::logic::and stubs=4 timeout=300 cutdrop=1 group=heavy
-    //@ desc="and over 4 operands: result (the deciding operand's value itself, or error/null) and the exact evaluation log (which operands, in which order, each at most once, against the outer data) equal the spec; the parser is applied to rule text only; the decision is by truthy"
-    lazy_harness!(k_c05_and_4_NRER, 4, 61, body_and);
-    //@ob name=C05.and.4.NENR harness=k_c05_and_4_NENR props=C05,C04 tier=thorough strength=bounded bound="4 operands; outcome pattern NENR (E=error, N=new value, R=raw value); truthiness of every value symbolic" fns=op::logic::and stubs=4 timeout=300 cutdrop=1 group=heavy
-    //@ desc="and over 4 operands: result (the deciding operand's value itself, or error/null) and the exact evaluation log (which operands, in which order, each at most once, against the outer data) equal the spec; the parser is applied to rule text only; the decision is by truthy"
-    lazy_harness!(k_c05_and_4_NENR, 4, 64, body_and);
-    //@ob name=C05.and.4.ERNR harness=k_c05_and_4_ERNR props=C05,C04 tier=thorough strength=bounded bound="4 operands; outcome pattern ERNR (E=error, N=new value, R=raw value); truthiness of every value symbolic" fns=op::logic::and stubs=4 timeout=300 cutdrop=1 group=heavy
-    //@ desc="and over 4 operands: result (the deciding operand's value itself, or error/null) and the exact evaluation log (which operands, in which order, each at most once, against the outer data) equal the spec; the parser is applied to rule text only; the decision is by truthy"
-    lazy_harness!(k_c05_and_4_ERNR, 4, 69, body_and);
-    //@ob name=C05.and.4.NRNR harness=k_c05_and_4_NRNR props=C05,C04 tier=thorough strength=bounded bound="4 operands; outcome pattern NRNR (E=error, N=new value, R=raw value); truthiness of every value symbolic" fns=op::logic::and stubs=4 timeout=300 cutdrop=1 group=medium
-    //@ desc="and over 4 operands: result (the deciding operand's value itself, or error/null) and the exact evaluation log (which operands, in which order, each at most once, against the outer data) equal the spec; the parser is applied to rule text only; the decision is by truthy"
-    lazy_harness!(k_c05_and_4_NRNR, 4, 70, body_and);
-    //@ob name=C05.and.5.NRNRE harness=k_c05_and_5_NRNRE props=C05,C04 tier=thorough strength=bounded bound="5 operands; outcome pattern NRNRE (E=error, N=new value, R=raw value); truthiness of every value symbolic" fns=op::logic::and stubs=4 timeout=300 cutdrop=1 group=medium
-    //@ desc="and over 5 operands: result (the deciding operand's value itself, or error/null) and the exact evaluation log (which operands, in which order, each at most once, against the outer data) equal the spec; the parser is applied to rule text only; the decision is by truthy"
-    lazy_harness!(k_c05_and_5_NRNRE, 5, 70, body_and);
-    //@ob name=C05.and.5.NRNEN harness=k_c05_and_5_NRNEN props=C05,C04 tier=thorough strength=bounded bound="5 operands; outcome pattern NRNEN (E=error, N=new value, R=raw value); truthiness of every value symbolic" fns=op::logic::and stubs=4 timeout=300 cutdrop=1 group=heavy
-    //@ desc="and over 5 operands: result (the deciding operand's value itself, or error/null) and the exact evaluation log (which operands, in which order, each at most once, against the outer data) equal the spec; the parser is applied to rule text only; the decision is by truthy"
-    lazy_harness!(k_c05_and_5_NRNEN, 5, 97, body_and);
-    //@ob name=C05.and.5.NRERN harness=k_c05_and_5_NRERN props=C05,C04 tier=thorough strength=bounded bound="5 operands; outcome pattern NRERN (E=error, N=new value, R=raw value); truthiness of every value symbolic" fns=op::logic::and stubs=4 timeout=300 cutdrop=1 group=heavy
-    //@ desc="and over 5 operands: result (the deciding operand's value itself, or error/null) and the exact evaluation log (which operands, in which order, each at most once, against the outer data) equal the spec; the parser is applied to rule text only; the decision is by truthy"
-    lazy_harness!(k_c05_and_5_NRERN, 5, 142, body_and);
-    //@ob name=C05.and.5.NENRN harness=k_c05_and_5_NENRN props=C05,C04 tier=thorough strength=bounded bound="5 operands; outcome pattern NENRN (E=error, N=new value, R=raw value); truthiness of every value symbolic" fns=op::logic::and stubs=4 timeout=300 cutdrop=1 group=heavy
-    //@ desc="and over 5 operands: result (the deciding operand's value itself, or error/null) and the exact evaluation log (which operands, in which order, each at most once, against the outer data) equal the spec; the parser is applied to rule text only; the decision is by truthy"
-    lazy_harness!(k_c05_and_5_NENRN, 5, 145, body_and);
-    //@ob name=C05.and.5.ERNRN harness=k_c05_and_5_ERNRN props=C05,C04 tier=thorough strength=bounded bound="5 operands; outcome pattern ERNRN (E=error, N=new value, R=raw value); truthiness of every value symbolic" fns=op::logic::and stubs=4 timeout=300 cutdrop=1 group=heavy
-    //@ desc="and over 5 operands: result (the deciding operand's value itself, or error/null) and the exact evaluation log (which operands, in which order, each at most once, against the outer data) equal the spec; the parser is applied to rule text only; the decision is by truthy"
-    lazy_harness!(k_c05_and_5_ERNRN, 5, 150, body_and);
-    //@ob name=C05.and.5.NRNRN harness=k_c05_and_5_NRNRN props=C05,C04 tier=thorough strength=bounded bound="5 operands; outcome pattern NRNRN (E=error, N=new value, R=raw value); truthiness of every value symbolic" fns=op::logic::and stubs=4 timeout=300 cutdrop=1 group=medium
-    //@ desc="and over 5 operands: result (the deciding operand's value itself, or error/null) and the exact evaluation log (which operands, in which order, each at most once, against the outer data) equal the spec; the parser is applied to rule text only; the decision is by truthy"
-    lazy_harness!(k_c05_and_5_NRNRN, 5, 151, body_and);
-    //@ob name=C05.if.0.none harness=k_c05_if_0_none props=C05,C04 tier=quick strength=bounded bound="0 operands; outcome pattern none (E=error, N=new value, R=raw value); truthiness of every value symbolic" fns=op::logic::if_ stubs=4 timeout=300 cutdrop=1 group=medium
-    //@ desc="if over 0 operands: result (the deciding operand's value itself, or error/null) and the exact evaluation log (which operands, in which order, each at most once, against the outer data) equal the spec; the parser is applied to rule text only; the decision is by truthy"
+    //@ob name=C05.and.2.ER harness=k_c05_and_2_ER props=C05,C04 tier=thorough strength=bounded bound="2 operands; outcome pattern ER (E=evaluation error, N=new value, R=raw value, P=does not parse); truthiness of every value symbolic" fns=op::logic::and stubs=4 timeout=300 cutdrop=1 group=heavy
+    //@ desc="and over 2 operands: result (the deciding operand's value itself, or error/null) and the exact evaluation log (which operands, in which order, each at most once, against the outer data) equal the spec; an operand that is not needed has no effect even if it is invalid; the parser is applied to rule text only"
+    lazy_harness!(k_c05_and_2_ER, 2, 8, body_and);
+    //@ob name=C05.and.2.NR harness=k_c05_and_2_NR props=C05,C04 tier=quick strength=bounded bound="2 operands; outcome pattern NR (E=evaluation error, N=new value, R=raw value, P=does not parse); truthiness of every value symbolic" fns=op::logic::and stubs=4 timeout=300 cutdrop=1 group=medium
+    //@ desc="and over 2 operands: result (the deciding operand's value itself, or error/null) and the exact evaluation log (which operands, in which order, each at most once, against the outer data) equal the spec; an operand that is not needed has no effect even if it is invalid; the parser is applied to rule text only"
+    lazy_harness!(k_c05_and_2_NR, 2, 9, body_and);
+    //@ob name=C05.and.2.NP harness=k_c05_and_2_NP props=C05,C04 tier=quick strength=bounded bound="2 operands; outcome pattern NP (E=evaluation error, N=new value, R=raw value, P=does not parse); truthiness of every value symbolic" fns=op::logic::and stubs=4 timeout=300 cutdrop=1 group=medium
+    //@ desc="and over 2 operands: result (the deciding operand's value itself, or error/null) and the exact evaluation log (which operands, in which order, each at most once, against the outer data) equal the spec; an operand that is not needed has no effect even if it is invalid; the parser is applied to rule text only"
+    lazy_harness!(k_c05_and_2_NP, 2, 13, body_and);
+    //@ob name=C05.and.3.NRE harness=k_c05_and_3_NRE props=C05,C04 tier=thorough strength=bounded bound="3 operands; outcome pattern NRE (E=evaluation error, N=new value, R=raw value, P=does not parse); truthiness of every value symbolic" fns=op::logic::and stubs=4 timeout=300 cutdrop=1 group=medium
+    //@ desc="and over 3 operands: result (the deciding operand's value itself, or error/null) and the exact evaluation log (which operands, in which order, each at most once, against the outer data) equal the spec; an operand that is not needed has no effect even if it is invalid; the parser is applied to rule text only"
+    lazy_harness!(k_c05_and_3_NRE, 3, 9, body_and);
+    //@ob name=C05.and.3.NEN harness=k_c05_and_3_NEN props=C05,C04 tier=thorough strength=bounded bound="3 operands; outcome pattern NEN (E=evaluation error, N=new value, R=raw value, P=does not parse); truthiness of every value symbolic" fns=op::logic::and stubs=4 timeout=300 cutdrop=1 group=heavy
+    //@ desc="and over 3 operands: result (the deciding operand's value itself, or error/null) and the exact evaluation log (which operands, in which order, each at most once, against the outer data) equal the spec; an operand that is not needed has no effect even if it is invalid; the parser is applied to rule text only"
+    lazy_harness!(k_c05_and_3_NEN, 3, 17, body_and);
+    //@ob name=C05.and.3.ERN harness=k_c05_and_3_ERN props=C05,C04 tier=thorough strength=bounded bound="3 operands; outcome pattern ERN (E=evaluation error, N=new value, R=raw value, P=does not parse); truthiness of every value symbolic" fns=op::logic::and stubs=4 timeout=300 cutdrop=1 group=heavy
+    //@ desc="and over 3 operands: result (the deciding operand's value itself, or error/null) and the exact evaluation log (which operands, in which order, each at most once, against the outer data) equal the spec; an operand that is not needed has no effect even if it is invalid; the parser is applied to rule text only"
+    lazy_harness!(k_c05_and_3_ERN, 3, 24, body_and);
+    //@ob name=C05.and.3.NRN harness=k_c05_and_3_NRN props=C05,C04 tier=quick strength=bounded bound="3 operands; outcome pattern NRN (E=evaluation error, N=new value, R=raw value, P=does not parse); truthiness of every value symbolic" fns=op::logic::and stubs=4 timeout=300 cutdrop=1 group=medium
+    //@ desc="and over 3 operands: result (the deciding operand's value itself, or error/null) and the exact evaluation log (which operands, in which order, each at most once, against the outer data) equal the spec; an operand that is not needed has no effect even if it is invalid; the parser is applied to rule text only"
+    lazy_harness!(k_c05_and_3_NRN, 3, 25, body_and);
+    //@ob name=C05.and.3.NNP harness=k_c05_and_3_NNP props=C05,C04 tier=quick strength=bounded bound="3 operands; outcome pattern NNP (E=evaluation error, N=new value, R=raw value, P=does not parse); truthiness of every value symbolic" fns=op::logic::and stubs=4 timeout=300 cutdrop=1 group=medium
+    //@ desc="and over 3 operands: result (the deciding operand's value itself, or error/null) and the exact evaluation log (which operands, in which order, each at most once, against the outer data) equal the spec; an operand that is not needed has no effect even if it is invalid; the parser is applied to rule text only"
+    lazy_harness!(k_c05_and_3_NNP, 3, 53, body_and);
+    //@ob name=C05.and.4.NRNE harness=k_c05_and_4_NRNE props=C05,C04 tier=thorough strength=bounded bound="4 operands; outcome pattern NRNE (E=evaluation error, N=new value, R=raw value, P=does not parse); truthiness of every value symbolic" fns=op::logic::and stubs=4 timeout=300 cutdrop=1 group=medium
+    //@ desc="and over 4 operands: result (the deciding operand's value itself, or error/null) and the exact evaluation log (which operands, in which order, each at most once, against the outer data) equal the spec; an operand that is not needed has no effect even if it is invalid; the parser is applied to rule text only"
+    lazy_harness!(k_c05_and_4_NRNE, 4, 25, body_and);
+    //@ob name=C05.and.4.NRER harness=k_c05_and_4_NRER props=C05,C04 tier=thorough strength=bounded bound="4 operands; outcome pattern NRER (E=evaluation error, N=new value, R=raw value, P=does not parse); truthiness of every value symbolic" fns=op::logic::and stubs=4 timeout=300 cutdrop=1 group=heavy
+    //@ desc="and over 4 operands: result (the deciding operand's value itself, or error/null) and the exact evaluation log (which operands, in which order, each at most once, against the outer data) equal the spec; an operand that is not needed has no effect even if it is invalid; the parser is applied to rule text only"
+    lazy_harness!(k_c05_and_4_NRER, 4, 137, body_and);
+    //@ob name=C05.and.4.NENR harness=k_c05_and_4_NENR props=C05,C04 tier=thorough strength=bounded bound="4 operands; outcome pattern NENR (E=evaluation error, N=new value, R=raw value, P=does not parse); truthiness of every value symbolic" fns=op::logic::and stubs=4 timeout=300 cutdrop=1 group=heavy
+    //@ desc="and over 4 operands: result (the deciding operand's value itself, or error/null) and the exact evaluation log (which operands, in which order, each at most once, against the outer data) equal the spec; an operand that is not needed has no effect even if it is invalid; the parser is applied to rule text only"
+    lazy_harness!(k_c05_and_4_NENR, 4, 145, body_and);
+    //@ob name=C05.and.4.ERNR harness=k_c05_and_4_ERNR props=C05,C04 tier=thorough strength=bounded bound="4 operands; outcome pattern ERNR (E=evaluation error, N=new value, R=raw value, P=does not parse); truthiness of every value symbolic" fns=op::logic::and stubs=4 timeout=300 cutdrop=1 group=heavy
+    //@ desc="and over 4 operands: result (the deciding operand's value itself, or error/null) and the exact evaluation log (which operands, in which order, each at most once, against the outer data) equal the spec; an operand that is not needed has no effect even if it is invalid; the parser is applied to rule text only"
+    lazy_harness!(k_c05_and_4_ERNR, 4, 152, body_and);
+    //@ob name=C05.and.4.NRNR harness=k_c05_and_4_NRNR props=C05,C04 tier=thorough strength=bounded bound="4 operands; outcome pattern NRNR (E=evaluation error, N=new value, R=raw value, P=does not parse); truthiness of every value symbolic" fns=op::logic::and stubs=4 timeout=300 cutdrop=1 group=medium
+    //@ desc="and over 4 operands: result (the deciding operand's value itself, or error/null) and the exact evaluation log (which operands, in which order, each at most once, against the outer data) equal the spec; an operand that is not needed has no effect even if it is invalid; the parser is applied to rule text only"
+    lazy_harness!(k_c05_and_4_NRNR, 4, 153, body_and);
+    //@ob name=C05.and.5.NRNRE harness=k_c05_and_5_NRNRE props=C05,C04 tier=thorough strength=bounded bound="5 operands; outcome pattern NRNRE (E=evaluation error, N=new value, R=raw value, P=does not parse); truthiness of every value symbolic" fns=op::logic::and stubs=4 timeout=300 cutdrop=1 group=medium
+    //@ desc="and over 5 operands: result (the deciding operand's value itself, or error/null) and the exact evaluation log (which operands, in which order, each at most once, against the outer data) equal the spec; an operand that is not needed has no effect even if it is invalid; the parser is applied to rule text only"
+    lazy_harness!(k_c05_and_5_NRNRE, 5, 153, body_and);
+    //@ob name=C05.and.5.NRNEN harness=k_c05_and_5_NRNEN props=C05,C04 tier=thorough strength=bounded bound="5 operands; outcome pattern NRNEN (E=evaluation error, N=new value, R=raw value, P=does not parse); truthiness of every value symbolic" fns=op::logic::and stubs=4 timeout=300 cutdrop=1 group=heavy
+    //@ desc="and over 5 operands: result (the deciding operand's value itself, or error/null) and the exact evaluation log (which operands, in which order, each at most once, against the outer data) equal the spec; an operand that is not needed has no effect even if it is invalid; the parser is applied to rule text only"
+    lazy_harness!(k_c05_and_5_NRNEN, 5, 281, body_and);
+    //@ob name=C05.and.5.NRERN harness=k_c05_and_5_NRERN props=C05,C04 tier=thorough strength=bounded bound="5 operands; outcome pattern NRERN (E=evaluation error, N=new value, R=raw value, P=does not parse); truthiness of every value symbolic" fns=op::logic::and stubs=4 timeout=300 cutdrop=1 group=heavy
+    //@ desc="and over 5 operands: result (the deciding operand's value itself, or error/null) and the exact evaluation log (which operands, in which order, each at most once, against the outer data) equal the spec; an operand that is not needed has no effect even if it is invalid; the parser is applied to rule text only"
+    lazy_harness!(k_c05_and_5_NRERN, 5, 393, body_and);
+    //@ob name=C05.and.5.NENRN harness=k_c05_and_5_NENRN props=C05,C04 tier=thorough strength=bounded bound="5 operands; outcome pattern NENRN (E=evaluation error, N=new value, R=raw value, P=does not parse); truthiness of every value symbolic" fns=op::logic::and stubs=4 timeout=300 cutdrop=1 group=heavy
+    //@ desc="and over 5 operands: result (the deciding operand's value itself, or error/null) and the exact evaluation log (which operands, in which order, each at most once, against the outer data) equal the spec; an operand that is not needed has no effect even if it is invalid; the parser is applied to rule text only"
+    lazy_harness!(k_c05_and_5_NENRN, 5, 401, body_and);
+    //@ob name=C05.and.5.ERNRN harness=k_c05_and_5_ERNRN props=C05,C04 tier=thorough strength=bounded bound="5 operands; outcome pattern ERNRN (E=evaluation error, N=new value, R=raw value, P=does not parse); truthiness of every value symbolic" fns=op::logic::and stubs=4 timeout=300 cutdrop=1 group=heavy
+    //@ desc="and over 5 operands: result (the deciding operand's value itself, or error/null) and the exact evaluation log (which operands, in which order, each at most once, against the outer data) equal the spec; an operand that is not needed has no effect even if it is invalid; the parser is applied to rule text only"
+    lazy_harness!(k_c05_and_5_ERNRN, 5, 408, body_and);
+    //@ob name=C05.and.5.NRNRN harness=k_c05_and_5_NRNRN props=C05,C04 tier=thorough strength=bounded bound="5 operands; outcome pattern NRNRN (E=evaluation error, N=new value, R=raw value, P=does not parse); truthiness of every value symbolic" fns=op::logic::and stubs=4 timeout=300 cutdrop=1 group=medium
+    //@ desc="and over 5 operands: result (the deciding operand's value itself, or error/null) and the exact evaluation log (which operands, in which order, each at most once, against the outer data) equal the spec; an operand that is not needed has no effect even if it is invalid; the parser is applied to rule text only"
+    lazy_harness!(k_c05_and_5_NRNRN, 5, 409, body_and);
+    //@ob name=C05.if.0.none harness=k_c05_if_0_none props=C05,C04 tier=quick strength=bounded bound="0 operands; outcome pattern none (E=evaluation error, N=new value, R=raw value, P=does not parse); truthiness of every value symbolic" fns=op::logic::if_ stubs=4 timeout=300 cutdrop=1 group=medium
+    //@ desc="if over 0 operands: result (the deciding operand's value itself, or error/null) and the exact evaluation log (which operands, in which order, each at most once, against the outer data) equal the spec; an operand that is not needed has no effect even if it is invalid; the parser is applied to rule text only"
     lazy_harness!(k_c05_if_0_none, 0, 0, body_if);
-    //@ob name=C05.if.1.E harness=k_c05_if_1_E props=C05,C04 tier=quick strength=bounded bound="1 operands; outcome pattern E (E=error, N=new value, R=raw value); truthiness of every value symbolic" fns=op::logic::if_ stubs=4 timeout=300 cutdrop=1 group=medium
-    //@ desc="if over 1 operands: result (the deciding operand's value itself, or error/null) and the exact evaluation log (which operands, in which order, each at most once, against the outer data) equal the spec; the parser is applied to rule text only; the decision is by truthy"
+    //@ob name=C05.if.1.E harness=k_c05_if_1_E props=C05,C04 tier=quick strength=bounded bound="1 operands; outcome pattern E (E=evaluation error, N=new value, R=raw value, P=does not parse); truthiness of every value symbolic" fns=op::logic::if_ stubs=4 timeout=300 cutdrop=1 group=medium
+    //@ desc="if over 1 operands: result (the deciding operand's value itself, or error/null) and the exact evaluation log (which operands, in which order, each at most once, against the outer data) equal the spec; an operand that is not needed has no effect even if it is invalid; the parser is applied to rule text only"
     lazy_harness!(k_c05_if_1_E, 1, 0, body_if);
-    //@ob name=C05.if.1.N harness=k_c05_if_1_N props=C05,C04 tier=quick strength=bounded bound="1 operands; outcome pattern N (E=error, N=new value, R=raw value); truthiness of every value symbolic" fns=op::logic::if_ stubs=4 timeout=300 cutdrop=1 group=medium
-    //@ desc="if over 1 operands: result (the deciding operand's value itself, or error/null) and the exact evaluation log (which operands, in which order, each at most once, against the outer data) equal the spec; the parser is applied to rule text only; the decision is by truthy"
+    //@ob name=C05.if.1.N harness=k_c05_if_1_N props=C05,C04 tier=quick strength=bounded bound="1 operands; outcome pattern N (E=evaluation error, N=new value, R=raw value, P=does not parse); truthiness of every value symbolic" fns=op::logic::if_ stubs=4 timeout=300 cutdrop=1 group=medium
+    //@ desc="if over 1 operands: result (the deciding operand's value itself, or error/null) and the exact evaluation log (which operands, in which order, each at most once, against the outer data) equal the spec; an operand that is not needed has no effect even if it is invalid; the parser is applied to rule text only"
     lazy_harness!(k_c05_if_1_N, 1, 1, body_if);
-    //@ob name=C05.if.2.NE harness=k_c05_if_2_NE props=C05,C04 tier=quick strength=bounded bound="2 operands; outcome pattern NE (E=error, N=new value, R=raw value); truthiness of every value symbolic" fns=op::logic::if_ stubs=4 timeout=300 cutdrop=1 group=medium
-    //@ desc="if over 2 operands: result (the deciding operand's value itself, or error/null) and the exact evaluation log (which operands, in which order, each at most once, against the outer data) equal the spec; the parser is applied to rule text only; the decision is by truthy"
+    //@ob name=C05.if.2.NE harness=k_c05_if_2_NE props=C05,C04 tier=quick strength=bounded bound="2 operands; outcome pattern NE (E=evaluation error, N=new value, R=raw value, P=does not parse); truthiness of every value symbolic" fns=op::logic::if_ stubs=4 timeout=300 cutdrop=1 group=medium
+    //@ desc="if over 2 operands: result (the deciding operand's value itself, or error/null) and the exact evaluation log (which operands, in which order, each at most once, against the outer data) equal the spec; an operand that is not needed has no effect even if it is invalid; the parser is applied to rule text only"
     lazy_harness!(k_c05_if_2_NE, 2, 1, body_if);
-    //@ob name=C05.if.2.ER harness=k_c05_if_2_ER props=C05,C04 tier=thorough strength=bounded bound="2 operands; outcome pattern ER (E=error, N=new value, R=raw value); truthiness of every value symbolic" fns=op::logic::if_ stubs=4 timeout=300 cutdrop=1 group=heavy
-    //@ desc="if over 2 operands: result (the deciding operand's value itself, or error/null) and the exact evaluation log (which operands, in which order, each at most once, against the outer data) equal the spec; the parser is applied to rule text only; the decision is by truthy"
-    lazy_harness!(k_c05_if_2_ER, 2, 6, body_if);
-    //@ob name=C05.if.2.NR harness=k_c05_if_2_NR props=C05,C04 tier=quick strength=bounded bound="2 operands; outcome pattern NR (E=error, N=new value, R=raw value); truthiness of every value symbolic" fns=op::logic::if_ stubs=4 timeout=300 cutdrop=1 group=medium
-    //@ desc="if over 2 operands: result (the deciding operand's value itself, or error/null) and the exact evaluation log (which operands, in which order, each at most once, against the outer data) equal the spec; the parser is applied to rule text only; the decision is by truthy"
-    lazy_harness!(k_c05_if_2_NR, 2, 7, body_if);
-    //@ob name=C05.if.3.NRE harness=k_c05_if_3_NRE props=C05,C04 tier=thorough strength=bounded bound="3 operands; outcome pattern NRE (E=error, N=new value, R=raw value); truthiness of every value symbolic" fns=op::logic::if_ stubs=4 timeout=300 cutdrop=1 group=medium
-    //@ desc="if over 3 operands: result (the deciding operand's value itself, or error/null) and the exact evaluation log (which operands, in which order, each at most once, against the outer data) equal the spec; the parser is applied to rule text only; the decision is by truthy"
-    lazy_harness!(k_c05_if_3_NRE, 3, 7, body_if);
-    //@ob name=C05.if.3.NEN harness=k_c05_if_3_NEN props=C05,C04 tier=thorough strength=bounded bound="3 operands; outcome pattern NEN (E=error, N=new value, R=raw value); truthiness of every value symbolic" fns=op::logic::if_ stubs=4 timeout=300 cutdrop=1 group=heavy
-    //@ desc="if over 3 operands: result (the deciding operand's value itself, or error/null) and the exact evaluation log (which operands, in which order, each at most once, against the outer data) equal the spec; the parser is applied to rule text only; the decision is by truthy"
-    lazy_harness!(k_c05_if_3_NEN, 3, 10, body_if);
-    //@ob name=C05.if.3.ERN harness=k_c05_if_3_ERN props=C05,C04 tier=thorough strength=bounded bound="3 operands; outcome pattern ERN (E=error, N=new value, R=raw value); truthiness of every value symbolic" fns=op::logic::if_ stubs=4 timeout=300 cutdrop=1 group=heavy
-    //@ desc="if over 3 operands: result (the deciding operand's value itself, or error/null) and the exact evaluation log (which operands, in which order, each at most once, against the outer data) equal the spec; the parser is applied to rule text only; the decision is by truthy"
-    lazy_harness!(k_c05_if_3_ERN, 3, 15, body_if);
-    //@ob name=C05.if.3.NRN harness=k_c05_if_3_NRN props=C05,C04 tier=quick strength=bounded bound="3 operands; outcome pattern NRN (E=error, N=new value, R=raw value); truthiness of every value symbolic" fns=op::logic::if_ stubs=4 timeout=300 cutdrop=1 group=medium
-    //@ desc="if over 3 operands: result (the deciding operand's value itself, or error/null) and the exact evaluation log (which operands, in which order, each at most once, against the outer data) equal the spec; the parser is applied to rule text only; the decision is by truthy"
-    lazy_harness!(k_c05_if_3_NRN, 3, 16, body_if);
-    //@ob name=C05.if.4.NRNE harness=k_c05_if_4_NRNE props=C05,C04 tier=thorough strength=bounded bound="4 operands; outcome pattern NRNE (E=error, N=new value, R=raw value); truthiness of every value symbolic" fns=op::logic::if_ stubs=4 timeout=300 cutdrop=1 group=medium
-    //@ desc="if over 4 operands: result (the deciding operand's value itself, or error/null) and the exact evaluation log (which operands, in which order, each at most once, against the outer data) equal the spec; the parser is applied to rule text only; the decision is by truthy"
-    lazy_harness!(k_c05_if_4_NRNE, 4, 16, body_if);
-    //@ob name=C05.if.4.NRER harness=k_c05_if_4_NRER props=C05,C04 tier=thorough strength=bounded bound="4 operands; outcome pattern NRER (E=error, N=new value, R=raw value); truthiness of every value symbolic" fns=op::logic::if_ stubs=4 timeout=300 cutdrop=1 group=heavy
-    //@ desc="if over 4 operands: result (the deciding operand's value itself, or error/null) and the exact evaluation log (which operands, in which order, each at most once, against the outer data) equal the spec; the parser is applied to rule text only; the decision is by truthy"
-    lazy_harness!(k_c05_if_4_NRER, 4, 61, body_if);
-    //@ob name=C05.if.4.NENR harness=k_c05_if_4_NENR props=C05,C04 tier=thorough strength=bounded bound="4 operands; outcome pattern NENR (E=error, N=new value, R=raw value); truthiness of every value symbolic" fns=op::logic::if_ stubs=4 timeout=300 cutdrop=1 group=heavy
-    //@ desc="if over 4 operands: result (the deciding operand's value itself, or error/null) and the exact evaluation log (which operands, in which order, each at most once, against the outer data) equal the spec; the parser is applied to rule text only; the decision is by truthy"
-    lazy_harness!(k_c05_if_4_NENR, 4, 64, body_if);
-    //@ob name=C05.if.4.ERNR harness=k_c05_if_4_ERNR props=C05,C04 tier=thorough strength=bounded bound="4 operands; outcome pattern ERNR (E=error, N=new value, R=raw value); truthiness of every value symbolic" fns=op::logic::if_ stubs=4 timeout=300 cutdrop=1 group=heavy
-    //@ desc="if over 4 operands: result (the deciding operand's value itself, or error/null) and the exact evaluation log (which operands, in which order, each at most once, against the outer data) equal the spec; the parser is applied to rule text only; the decision is by truthy"
-    lazy_harness!(k_c05_if_4_ERNR, 4, 69, body_if);
-    //@ob name=C05.if.4.NRNR harness=k_c05_if_4_NRNR props=C05,C04 tier=thorough strength=bounded bound="4 operands; outcome pattern NRNR (E=error, N=new value, R=raw value); truthiness of every value symbolic" fns=op::logic::if_ stubs=4 timeout=300 cutdrop=1 group=medium
-    //@ desc="if over 4 operands: result (the deciding operand's value itself, or error/null) and the exact evaluation log (which operands, in which order, each at most once, against the outer data) equal the spec; the parser is applied to rule text only; the decision is by truthy"
-    lazy_harness!(k_c05_if_4_NRNR, 4, 70, body_if);
-    //@ob name=C05.if.5.NRNRE harness=k_c05_if_5_NRNRE props=C05,C04 tier=thorough strength=bounded bound="5 operands; outcome pattern NRNRE (E=error, N=new value, R=raw value); truthiness of every value symbolic" fns=op::logic::if_ stubs=4 timeout=300 cutdrop=1 group=medium
-    //@ desc="if over 5 operands: result (the deciding operand's value itself, or error/null) and the exact evaluation log (which operands, in which order, each at most once, against the outer data) equal the spec; the parser is applied to rule text only; the decision is by truthy"
-    lazy_harness!(k_c05_if_5_NRNRE, 5, 70, body_if);
-    //@ob name=C05.if.5.NRNEN harness=k_c05_if_5_NRNEN props=C05,C04 tier=thorough strength=bounded bound="5 operands; outcome pattern NRNEN (E=error, N=new value, R=raw value); truthiness of every value symbolic" fns=op::logic::if_ stubs=4 timeout=300 cutdrop=1 group=heavy
-    //@ desc="if over 5 operands: result (the deciding operand's value itself, or error/null) and the exact evaluation log (which operands, in which order, each at most once, against the outer data) equal the spec; the parser is applied to rule text only; the decision is by truthy"
-    lazy_harness!(k_c05_if_5_NRNEN, 5, 97, body_if);
-    //@ob name=C05.if.5.NRERN harness=k_c05_if_5_NRERN props=C05,C04 tier=thorough strength=bounded bound="5 operands; outcome pattern NRERN (E=error, N=new value, R=raw value); truthiness of every value symbolic" fns=op::logic::if_ stubs=4 timeout=300 cutdrop=1 group=heavy
-    //@ desc="if over 5 operands: result (the deciding operand's value itself, or error/null) and the exact evaluation log (which operands, in which order, each at most once, against the outer data) equal the spec; the parser is applied to rule text only; the decision is by truthy"
-    lazy_harness!(k_c05_if_5_NRERN, 5, 142, body_if);
-    //@ob name=C05.if.5.NENRN harness=k_c05_if_5_NENRN props=C05,C04 tier=thorough strength=bounded bound="5 operands; outcome pattern NENRN (E=error, N=new value, R=raw value); truthiness of every value symbolic" fns=op::logic::if_ stubs=4 timeout=300 cutdrop=1 group=heavy
-    //@ desc="if over 5 operands: result (the deciding operand's value itself, or error/null) and the exact evaluation log (which operands, in which order, each at most once, against the outer data) equal the spec; the parser is applied to rule text only; the decision is by truthy"
-    lazy_harness!(k_c05_if_5_NENRN, 5, 145, body_if);
-    //@ob name=C05.if.5.ERNRN harness=k_c05_if_5_ERNRN props=C05,C04 tier=thorough strength=bounded bound="5 operands; outcome pattern ERNRN (E=error, N=new value, R=raw value); truthiness of every value symbolic" fns=op::logic::if_ stubs=4 timeout=300 cutdrop=1 group=heavy
-    //@ desc="if over 5 operands: result (the deciding operand's value itself, or error/null) and the exact evaluation log (which operands, in which order, each at most once, against the outer data) equal the spec; the parser is applied to rule text only; the decision is by truthy"
-    lazy_harness!(k_c05_if_5_ERNRN, 5, 150, body_if);
-    //@ob name=C05.if.5.NRNRN harness=k_c05_if_5_NRNRN props=C05,C04 tier=thorough strength=bounded bound="5 operands; outcome pattern NRNRN (E=error, N=new value, R=raw value); truthiness of every value symbolic" fns=op::logic::if_ stubs=4 timeout=300 cutdrop=1 group=medium
-    //@ desc="if over 5 operands: result (the deciding operand's value itself, or error/null) and the exact evaluation log (which operands, in which order, each at most once, against the outer data) equal the spec; the parser is applied to rule text only; the decision is by truthy"
-    lazy_harness!(k_c05_if_5_NRNRN, 5, 151, body_if);
+    //@ob name=C05.if.2.ER harness=k_c05_if_2_ER props=C05,C04 tier=thorough strength=bounded bound="2 operands; outcome pattern ER (E=evaluation error, N=new value, R=raw value, P=does not parse); truthiness of every value symbolic" fns=op::logic::if_ stubs=4 timeout=300 cutdrop=1 group=heavy
+    //@ desc="if over 2 operands: result (the deciding operand's value itself, or error/null) and the exact evaluation log (which operands, in which order, each at most once, against the outer data) equal the spec; an operand that is not needed has no effect even if it is invalid; the parser is applied to rule text only"
+    lazy_harness!(k_c05_if_2_ER, 2, 8, body_if);
+    //@ob name=C05.if.2.NR harness=k_c05_if_2_NR props=C05,C04 tier=quick strength=bounded bound="2 operands; outcome pattern NR (E=evaluation error, N=new value, R=raw value, P=does not parse); truthiness of every value symbolic" fns=op::logic::if_ stubs=4 timeout=300 cutdrop=1 group=medium
+    //@ desc="if over 2 operands: result (the deciding operand's value itself, or error/null) and the exact evaluation log (which operands, in which order, each at most once, against the outer data) equal the spec; an operand that is not needed has no effect even if it is invalid; the parser is applied to rule text only"
+    lazy_harness!(k_c05_if_2_NR, 2, 9, body_if);
+    //@ob name=C05.if.2.NP harness=k_c05_if_2_NP props=C05,C04 tier=quick strength=bounded bound="2 operands; outcome pattern NP (E=evaluation error, N=new value, R=raw value, P=does not parse); truthiness of every value symbolic" fns=op::logic::if_ stubs=4 timeout=300 cutdrop=1 group=medium
+    //@ desc="if over 2 operands: result (the deciding operand's value itself, or error/null) and the exact evaluation log (which operands, in which order, each at most once, against the outer data) equal the spec; an operand that is not needed has no effect even if it is invalid; the parser is applied to rule text only"
+    lazy_harness!(k_c05_if_2_NP, 2, 13, body_if);
+    //@ob name=C05.if.3.NRE harness=k_c05_if_3_NRE props=C05,C04 tier=thorough strength=bounded bound="3 operands; outcome pattern NRE (E=evaluation error, N=new value, R=raw value, P=does not parse); truthiness of every value symbolic" fns=op::logic::if_ stubs=4 timeout=300 cutdrop=1 group=medium
+    //@ desc="if over 3 operands: result (the deciding operand's value itself, or error/null) and the exact evaluation log (which operands, in which order, each at most once, against the outer data) equal the spec; an operand that is not needed has no effect even if it is invalid; the parser is applied to rule text only"
+    lazy_harness!(k_c05_if_3_NRE, 3, 9, body_if);
+    //@ob name=C05.if.3.NEN harness=k_c05_if_3_NEN props=C05,C04 tier=thorough strength=bounded bound="3 operands; outcome pattern NEN (E=evaluation error, N=new value, R=raw value, P=does not parse); truthiness of every value symbolic" fns=op::logic::if_ stubs=4 timeout=300 cutdrop=1 group=heavy
+    //@ desc="if over 3 operands: result (the deciding operand's value itself, or error/null) and the exact evaluation log (which operands, in which order, each at most once, against the outer data) equal the spec; an operand that is not needed has no effect even if it is invalid; the parser is applied to rule text only"
+    lazy_harness!(k_c05_if_3_NEN, 3, 17, body_if);
+    //@ob name=C05.if.3.ERN harness=k_c05_if_3_ERN props=C05,C04 tier=thorough strength=bounded bound="3 operands; outcome pattern ERN (E=evaluation error, N=new value, R=raw value, P=does not parse); truthiness of every value symbolic" fns=op::logic::if_ stubs=4 timeout=300 cutdrop=1 group=heavy
+    //@ desc="if over 3 operands: result (the deciding operand's value itself, or error/null) and the exact evaluation log (which operands, in which order, each at most once, against the outer data) equal the spec; an operand that is not needed has no effect even if it is invalid; the parser is applied to rule text only"
+    lazy_harness!(k_c05_if_3_ERN, 3, 24, body_if);
+    //@ob name=C05.if.3.NRN harness=k_c05_if_3_NRN props=C05,C04 tier=quick strength=bounded bound="3 operands; outcome pattern NRN (E=evaluation error, N=new value, R=raw value, P=does not parse); truthiness of every value symbolic" fns=op::logic::if_ stubs=4 timeout=300 cutdrop=1 group=medium
+    //@ desc="if over 3 operands: result (the deciding operand's value itself, or error/null) and the exact evaluation log (which operands, in which order, each at most once, against the outer data) equal the spec; an operand that is not needed has no effect even if it is invalid; the parser is applied to rule text only"
+    lazy_harness!(k_c05_if_3_NRN, 3, 25, body_if);
+    //@ob name=C05.if.3.NNP harness=k_c05_if_3_NNP props=C05,C04 tier=quick strength=bounded bound="3 operands; outcome pattern NNP (E=evaluation error, N=new value, R=raw value, P=does not parse); truthiness of every value symbolic" fns=op::logic::if_ stubs=4 timeout=300 cutdrop=1 group=medium
+    //@ desc="if over 3 operands: result (the deciding operand's value itself, or error/null) and the exact evaluation log (which operands, in which order, each at most once, against the outer data) equal the spec; an operand that is not needed has no effect even if it is invalid; the parser is applied to rule text only"
+    lazy_harness!(k_c05_if_3_NNP, 3, 53, body_if);
+    //@ob name=C05.if.4.NRNE harness=k_c05_if_4_NRNE props=C05,C04 tier=thorough strength=bounded bound="4 operands; outcome pattern NRNE (E=evaluation error, N=new value, R=raw value, P=does not parse); truthiness of every value symbolic" fns=op::logic::if_ stubs=4 timeout=300 cutdrop=1 group=medium
+    //@ desc="if over 4 operands: result (the deciding operand's value itself, or error/null) and the exact evaluation log (which operands, in which order, each at most once, against the outer data) equal the spec; an operand that is not needed has no effect even if it is invalid; the parser is applied to rule text only"
+    lazy_harness!(k_c05_if_4_NRNE, 4, 25, body_if);
+    //@ob name=C05.if.4.NRER harness=k_c05_if_4_NRER props=C05,C04 tier=thorough strength=bounded bound="4 operands; outcome pattern NRER (E=evaluation error, N=new value, R=raw value, P=does not parse); truthiness of every value symbolic" fns=op::logic::if_ stubs=4 timeout=300 cutdrop=1 group=heavy
+    //@ desc="if over 4 operands: result (the deciding operand's value itself, or error/null) and the exact evaluation log (which operands, in which order, each at most once, against the outer data) equal the spec; an operand that is not needed has no effect even if it is invalid; the parser is applied to rule text only"
+    lazy_harness!(k_c05_if_4_NRER, 4, 137, body_if);
+    //@ob name=C05.if.4.NENR harness=k_c05_if_4_NENR props=C05,C04 tier=thorough strength=bounded bound="4 operands; outcome pattern NENR (E=evaluation error, N=new value, R=raw value, P=does not parse); truthiness of every value symbolic" fns=op::logic::if_ stubs=4 timeout=300 cutdrop=1 group=heavy
+    //@ desc="if over 4 operands: result (the deciding operand's value itself, or error/null) and the exact evaluation log (which operands, in which order, each at most once, against the outer data) equal the spec; an operand that is not needed has no effect even if it is invalid; the parser is applied to rule text only"
+    lazy_harness!(k_c05_if_4_NENR, 4, 145, body_if);
+    //@ob name=C05.if.4.ERNR harness=k_c05_if_4_ERNR props=C05,C04 tier=thorough strength=bounded bound="4 operands; outcome pattern ERNR (E=evaluation error, N=new value, R=raw value, P=does not parse); truthiness of every value symbolic" fns=op::logic::if_ stubs=4 timeout=300 cutdrop=1 group=heavy
+    //@ desc="if over 4 operands: result (the deciding operand's value itself, or error/null) and the exact evaluation log (which operands, in which order, each at most once, against the outer data) equal the spec; an operand that is not needed has no effect even if it is invalid; the parser is applied to rule text only"
+    lazy_harness!(k_c05_if_4_ERNR, 4, 152, body_if);
+    //@ob name=C05.if.4.NRNR harness=k_c05_if_4_NRNR props=C05,C04 tier=thorough strength=bounded bound="4 operands; outcome pattern NRNR (E=evaluation error, N=new value, R=raw value, P=does not parse); truthiness of every value symbolic" fns=op::logic::if_ stubs=4 timeout=300 cutdrop=1 group=medium
+    //@ desc="if over 4 operands: result (the deciding operand's value itself, or error/null) and the exact evaluation log (which operands, in which order, each at most once, against the outer data) equal the spec; an operand that is not needed has no effect even if it is invalid; the parser is applied to rule text only"
+    lazy_harness!(k_c05_if_4_NRNR, 4, 153, body_if);
+    //@ob name=C05.if.5.NRNRE harness=k_c05_if_5_NRNRE props=C05,C04 tier=thorough strength=bounded bound="5 operands; outcome pattern NRNRE (E=evaluation error, N=new value, R=raw value, P=does not parse); truthiness of every value symbolic" fns=op::logic::if_ stubs=4 timeout=300 cutdrop=1 group=medium
+    //@ desc="if over 5 operands: result (the deciding operand's value itself, or error/null) and the exact evaluation log (which operands, in which order, each at most once, against the outer data) equal the spec; an operand that is not needed has no effect even if it is invalid; the parser is applied to rule text only"
+    lazy_harness!(k_c05_if_5_NRNRE, 5, 153, body_if);
+    //@ob name=C05.if.5.NRNEN harness=k_c05_if_5_NRNEN props=C05,C04 tier=thorough strength=bounded bound="5 operands; outcome pattern NRNEN (E=evaluation error, N=new value, R=raw value, P=does not parse); truthiness of every value symbolic" fns=op::logic::if_ stubs=4 timeout=300 cutdrop=1 group=heavy
+    //@ desc="if over 5 operands: result (the deciding operand's value itself, or error/null) and the exact evaluation log (which operands, in which order, each at most once, against the outer data) equal the spec; an operand that is not needed has no effect even if it is invalid; the parser is applied to rule text only"
+    lazy_harness!(k_c05_if_5_NRNEN, 5, 281, body_if);
+    //@ob name=C05.if.5.NRERN harness=k_c05_if_5_NRERN props=C05,C04 tier=thorough strength=bounded bound="5 operands; outcome pattern NRERN (E=evaluation error, N=new value, R=raw value, P=does not parse); truthiness of every value symbolic" fns=op::logic::if_ stubs=4 timeout=300 cutdrop=1 group=heavy
+    //@ desc="if over 5 operands: result (the deciding operand's value itself, or error/null) and the exact evaluation log (which operands, in which order, each at most once, against the outer data) equal the spec; an operand that is not needed has no effect even if it is invalid; the parser is applied to rule text only"
+    lazy_harness!(k_c05_if_5_NRERN, 5, 393, body_if);
+    //@ob name=C05.if.5.NENRN harness=k_c05_if_5_NENRN props=C05,C04 tier=thorough strength=bounded bound="5 operands; outcome pattern NENRN (E=evaluation error, N=new value, R=raw value, P=does not parse); truthiness of every value symbolic" fns=op::logic::if_ stubs=4 timeout=300 cutdrop=1 group=heavy
+    //@ desc="if over 5 operands: result (the deciding operand's value itself, or error/null) and the exact evaluation log (which operands, in which order, each at most once, against the outer data) equal the spec; an operand that is not needed has no effect even if it is invalid; the parser is applied to rule text only"
+    lazy_harness!(k_c05_if_5_NENRN, 5, 401, body_if);
+    //@ob name=C05.if.5.ERNRN harness=k_c05_if_5_ERNRN props=C05,C04 tier=thorough strength=bounded bound="5 operands; outcome pattern ERNRN (E=evaluation error, N=new value, R=raw value, P=does not parse); truthiness of every value symbolic" fns=op::logic::if_ stubs=4 timeout=300 cutdrop=1 group=heavy
+    //@ desc="if over 5 operands: result (the deciding operand's value itself, or error/null) and the exact evaluation log (which operands, in which order, each at most once, against the outer data) equal the spec; an operand that is not needed has no effect even if it is invalid; the parser is applied to rule text only"
+    lazy_harness!(k_c05_if_5_ERNRN, 5, 408, body_if);
+    //@ob name=C05.if.5.NRNRN harness=k_c05_if_5_NRNRN props=C05,C04 tier=thorough strength=bounded bound="5 operands; outcome pattern NRNRN (E=evaluation error, N=new value, R=raw value, P=does not parse); truthiness of every value symbolic" fns=op::logic::if_ stubs=4 timeout=300 cutdrop=1 group=medium
+    //@ desc="if over 5 operands: result (the deciding operand's value itself, or error/null) and the exact evaluation log (which operands, in which order, each at most once, against the outer data) equal the spec; an operand that is not needed has no effect even if it is invalid; the parser is applied to rule text only"
+    lazy_harness!(k_c05_if_5_NRNRN, 5, 409, body_if);
 //@END-GENERATED-LAZY
 }
